@@ -201,7 +201,7 @@ pub fn run(prop: &str, tier: &str, seed: u64, out_dir: &Path, threads: usize) ->
             let cx = Conc::new("ascii", 1);
             loop {
                 // after a number of deadlocked programs the verdict is clear: do not spend the budget on more
-                if STUCK_PROGRAMS.load(std::sync::atomic::Ordering::SeqCst) > 12 {
+                if STUCK_PROGRAMS.load(std::sync::atomic::Ordering::SeqCst) > 3 {
                     break;
                 }
                 let job = jobs.lock().unwrap().pop();
